@@ -30,8 +30,11 @@ claim("C06", "Lean 4 proofs of termination (potential argument) and genuine fixp
       "the identity, given reported<=eps => reported=0, which C06_grid derives from a grid coarser than eps: the formal content of 'exactly "
       "representable bounds'), C06_infer_again (a second infer reports 0, one sweep, no change). Tied to /repo: infer() then every pass and "
       "node-level call then infer() again, sweep counts and amounts equal to the model's; first-order programs likewise against the first-order model.",
-      NOTE_COMMON + " Termination/fixpoint theorems are proved for the propositional engine; the first-order clause (tables grow; convergence also "
-      "requires that no grounding was created) rests on correspondence with the executable first-order model and the extra-sweep oracle.", "DESIGN.md §6 C06")
+      NOTE_COMMON + " First-order: C06_fol_fixpoint / C06_fol_any_schedule / C06_fol_infer_again (Lemmas/FolFix.lean): when the first-order infer converges "
+      "(a sweep reported <= eps AND created no grounding) and no sweep of the run reported an amount in (0, eps] (RunExact: the formal content of "
+      "'exactly representable bounds'; outright for eps <= 0), every scheduled upward/downward call, alone or in any order and number, reports 0 and "
+      "leaves every table structurally identical, and infer() again takes one sweep, reports 0 and returns the same tables. TERMINATION of the "
+      "first-order loop (tables grow; finitely many constants) is not a theorem: it rests on correspondence of sweep counts and the step cap.", "DESIGN.md §6 C06")
 claim("C07", "Lean 4 proof of confluence by chaotic iteration over monotone inflationary un-arrested steps + multi-order differential runs",
       "Theorems C07_confluent (two arbitrary step lists that both end in an arrest-free common fixpoint end in the same state), "
       "C07_contradiction_invariant / C07_contradiction_iff (if one exhaustive schedule ends contradiction-free no schedule ever shows one; "
